@@ -43,7 +43,7 @@ describe(
         "code of each maker are keyed by the same operator flag and pair each operand's Jacobian with the other "
         "operand's value."
     ),
-    decided=["10.1 operands are not modified", "10.2 Jacobian shapes for every output dimension", "10.3 value/derivative operator agreement", "10.3 value and Jacobian of a wrapped function at the same point (all classes)", "10.5 normalised linear function (rule group of C01)"],
+    decided=["10.1 operands are not modified", "10.2 Jacobian shapes for every output dimension", "10.3 value/derivative operator agreement", "10.3 value and Jacobian of a wrapped function at the same point (all classes)", "10.5 normalised linear function (rule group of C01)", "10.6 no alias of the evaluation point kept in a function object"],
     not_decided=["exactness for every x of Taylor / convex-linear / KS / IKS formulas", "side of the KS bounds"],
 )
 
